@@ -482,6 +482,13 @@ def _subgraph_feasibility(
     counter2 = Counter(g2_labels[n] for n in g2_nbrhd[v] if n in external2)
     return counter1 <= counter2
 
+def _stereo_centre(stereo: Stereo) -> AtomId | frozenset[AtomId]:
+    """The atom or the bond a stereo descriptor is centred on."""
+    if hasattr(stereo, "central_atom"):
+        return stereo.central_atom  # type: ignore[attr-defined]
+    return frozenset(stereo.bond)  # type: ignore[attr-defined]
+
+
 def _stereo_feasibility(
     u: AtomId, v: AtomId, state: _State, params: _Parameters
 ) -> bool:
@@ -508,9 +515,15 @@ def _stereo_feasibility(
     if len(s2) != len(s1):
         return False
 
-    if all(s in s2 for s in s1):
-        return True
-    return False
+    # compare each descriptor with the one centred on the same atom or bond:
+    # a descriptor with undefined parity equals any descriptor with the same
+    # atoms, also the one of a neighbouring centre
+    s2_by_centre = {_stereo_centre(s): s for s in s2}
+    for s in s1:
+        other = s2_by_centre.get(_stereo_centre(s))
+        if other is None or s != other:
+            return False
+    return True
 
 def _subgraph_stereo_feasibility(
     u: AtomId, v: AtomId, state: _State, params: _Parameters
